@@ -1269,4 +1269,100 @@ theorem exists_last_advertise (p : Key) : ∀ (pre : List (Nat × Event)),
         exact hr ⟨z, hz, tok', md', ml', hze⟩
       · exact absurd ⟨x, hxr, tok, md, ml, hxe⟩ hr
 
+/-! ### the database guard: an own row that is stored blocks a further attestation, in any state -/
+
+theorem shouldSign_db {now : Nat} {s : Node} {p : Key} {tree : Tree} {m : Metadata} {j : Json}
+    (h : shouldSign now s p tree m j = true) : attestedInDb s.attRows s.me m.id = false := by
+  simp only [shouldSign, Gen.guards, List.all_cons, List.all_nil, Bool.and_true, Bool.and_eq_true] at h
+  obtain ⟨_, _, _, _, _, _, _, _, h9⟩ := h
+  simpa [guardOk] using h9
+
+theorem insertAtt_prefix (rows : List AttRow) (r : AttRow) : rows <+: insertAtt rows r := by
+  unfold insertAtt
+  split
+  · exact List.prefix_refl _
+  · exact List.prefix_append _ _
+
+theorem foldl_insertAtt_prefix (p : Key) : ∀ (atts : List (Key × Att)) (rows : List AttRow),
+    rows <+: atts.foldl (fun rows a => if verifies a.2.vk a.1 then insertAtt rows ⟨p, a.1, a.2⟩ else rows) rows := by
+  intro atts
+  induction atts with
+  | nil => intro rows; exact List.prefix_refl _
+  | cons a rest ih =>
+    intro rows
+    simp only [List.foldl_cons]
+    refine List.IsPrefix.trans ?_ (ih _)
+    split
+    · exact insertAtt_prefix _ _
+    · exact List.prefix_refl _
+
+theorem substantiate_rows_prefix (s : Node) (p : Key) (msg : Msg) : s.attRows <+: (substantiate s p msg).1.attRows := by
+  simp only [substantiate]
+  split
+  · exact List.prefix_refl _
+  · split
+    · exact List.prefix_refl _
+    · exact foldl_insertAtt_prefix p _ _
+
+theorem signLoop_attest_rows (now : Nat) (p : Key) (tree : Tree) : ∀ (mds : List Metadata) (s : Node) (o : Out),
+    o ∈ (signLoop now p tree s mds).2.1 →
+    ∃ m j s', o = Out.attest p m.id ∧ shouldSign now s' p tree m j = true ∧ s.attRows <+: s'.attRows ∧ s'.me = s.me := by
+  intro mds
+  induction mds with
+  | nil => intro s o h; simp [signLoop] at h
+  | cons m rest ih =>
+    intro s o h
+    cases hj : m.json with
+    | none => simp [signLoop, hj] at h
+    | some j =>
+      by_cases hs : shouldSign now s p tree m j = true
+      · simp only [signLoop, hj, hs, if_true] at h
+        rcases List.mem_cons.mp h with h | h
+        · exact ⟨m, j, s, h, hs, List.prefix_refl _, rfl⟩
+        · obtain ⟨m', j', s', h1, h2, h3, h4⟩ := ih _ o h
+          refine ⟨m', j', s', h1, h2, List.IsPrefix.trans ?_ h3, ?_⟩
+          · simpa [recordAttest] using insertAtt_prefix s.attRows ⟨p, s.me, ownAtt s.me m.id⟩
+          · simpa [recordAttest] using h4
+      · simp only [signLoop, hj, hs] at h
+        exact ih s o h
+
+/-- appending rows never changes which authority the FIRST row with a given signature names -/
+theorem attestedInDb_mono {rows rows' : List AttRow} (hp : rows <+: rows') (me : Key) (mp : Hash)
+    (h : attestedInDb rows me mp = true) : attestedInDb rows' me mp = true := by
+  obtain ⟨ext, rfl⟩ := hp
+  simp only [attestedInDb, List.any_eq_true, Bool.and_eq_true, beq_iff_eq] at h ⊢
+  obtain ⟨x, hx, hm, ha⟩ := h
+  refine ⟨x, List.mem_append_left _ hx, hm, ?_⟩
+  simp only [getAuthority] at ha ⊢
+  cases hf : rows.find? (fun y => y.att.sig == x.att.sig) with
+  | none => simp [hf] at ha
+  | some y => simp [List.find?_append, hf] at ha ⊢; exact ha
+
+theorem received_attest_db {now : Nat} {s : Node} {p : Key} {msg : Msg} {order : List Hash} {q : Key} {mp : Hash}
+    (h : Out.attest q mp ∈ (receivedDisclosure now s p msg order).2) :
+    ∃ m j s', m.id = mp ∧ shouldSign now s' p (treeOf (substantiate s p msg).1 p) m j = true ∧
+      s.attRows <+: s'.attRows ∧ s'.me = s.me := by
+  have hfr := substantiate_frame s p msg
+  simp only at hfr
+  have key : Out.attest q mp ∈ (signPhase now (substantiate s p msg).1 p order (substantiate s p msg).2.1).2.1 →
+      ∃ m j s', m.id = mp ∧ shouldSign now s' p (treeOf (substantiate s p msg).1 p) m j = true ∧
+      s.attRows <+: s'.attRows ∧ s'.me = s.me := by
+    intro ho
+    simp only [signPhase] at ho
+    split at ho
+    · obtain ⟨m, j, s', h1, h2, h3, h4⟩ := signLoop_attest_rows _ _ _ _ _ _ ho
+      injection h1 with _ h1b
+      exact ⟨m, j, s', h1b.symm, h2, List.IsPrefix.trans (substantiate_rows_prefix s p msg) h3, h4.trans hfr.2.2.1⟩
+    · simp at ho
+  simp only [receivedDisclosure] at h
+  split at h
+  · simp at h
+  · split at h
+    · simp at h
+    · split at h
+      · exact key h
+      · rcases List.mem_append.mp h with h | h
+        · exact key h
+        · simp [missingRequests] at h
+
 end Ipv8.C17
